@@ -136,12 +136,12 @@ def run_case(case, res):
     if case.get("lab") == "clones":
         # the same data below different parents, also below one of its own occurrences (a clone inside its clone's branch)
         labs = gen.clone_labeling(rng_for(case.get("pseed", 0), "c16-clones", case["f"]), f, ["a", "b", "c"]) or [f"n{i}" for i in range(gen.size(f))]
-        nodes = gen.build(t, f, lambda i: labs[i], kind=(lambda i: "k") if typed else None)
+        nodes = gen.build(t, f, lambda i: labs[i], kind=(lambda i: "kab"[(i * 7 + i // 3) % 3]) if typed else None)
     elif case.get("lab") == "eqsib":
         # siblings holding equal data under distinct ids; renderings stay unique through the id
-        nodes = gen.build(t, f, lambda i: "x", kind=(lambda i: "k") if typed else None, data_id=lambda i: f"n{i}")
+        nodes = gen.build(t, f, lambda i: "x", kind=(lambda i: "kab"[(i * 7 + i // 3) % 3]) if typed else None, data_id=lambda i: f"n{i}")
     else:
-        nodes = gen.build(t, f, lambda i: f"n{i}", kind=(lambda i: "k") if typed else None)
+        nodes = gen.build(t, f, lambda i: f"n{i}", kind=(lambda i: "kab"[(i * 7 + i // 3) % 3]) if typed else None)
     if case.get("prelude"):
         # refused calls / add+remove pairs first (a leaf may be left with an empty child list instead of None);
         # the set of nodes is unchanged by construction of the prelude below
